@@ -31,7 +31,7 @@ vlib.standard_check({
             "undefined stimuli) with a real VCDSink (random signal selection) and a real FileBasedTestbenchRecorder; every commit of every recorded "
             "signal is compared with the value read back from the real .vcd, every clock and reset line as a function of time with what onClock/onReset reported, every line of both files with the model, every CHECK/RST of the real "
             ".testvectors is replayed into a fresh simulator; non-trivial = value comparisons + replayed statements",
-    "trusted_base": ["Lean 4.33 kernel", "axioms: propext, Classical.choice, Quot.sound only (audited per theorem)",
+    "trusted_base": ["Lean 4.33 kernel", "harness/c20.cpp: the expected variable set, sampled values, pin / reset names and reset ports come from the harness's own construction record, a scan of the circuit with the documented meaning of the add* selections and hlim::Clock queries — never from the sink or the recorder", "axioms: propext, Classical.choice, Quot.sound only (audited per theorem)",
                      "harness/c20.cpp (independent SimulatorCallbacks samplers, replay semantics: a group written exactly on a clock edge acts before "
                      "the edge, as in the generated VHDL test bench) + Driver/C20.lean line protocol",
                      "the VCD reader `decode` as the meaning of a VCD file; ostream << size_t modelled by natToDec; boost::rational by Nat / Rat"],
